@@ -493,11 +493,9 @@ def _universe(name):
     raise ValueError(name)
 
 
-# NOT RUN BY DEFAULT (only with `--only pending`): sub-families on which the UNCHANGED tree deviates, reported to the
-# lead and awaiting a decision (fix or known finding).
-#  * T4c(3,1,2,1;<=3) x merge: three upper coordinates whose payloads are fibers of fibers collide under
-#    mergeRanks(depth=0, levels=1, 'absolute'): TypeError in Fiber._mergeToFibertree (the n-ary union hands None for
-#    the absent leaves of the third operand); minimal: points (0,0,1,0), (1,0,1,0), (2,0,0,0).
+# Three upper coordinates whose payloads are fibers of fibers collide under mergeRanks(depth=0, levels=1,
+# 'absolute' / 'relative') (minimal: points (0,0,1,0), (1,0,1,0), (2,0,0,0)): found by the round-4 builder on the
+# unchanged tree (TypeError in Fiber._mergeToFibertree), repaired by fix fb9f833; part of both tiers since.
 PENDING_PLAN = [("T4c(3,1,2,1;<=3)", ("ts", "te", "f"), ("merge",), None)]
 
 
@@ -543,6 +541,7 @@ def run(ctx):
                 ("T2(3,3)", allf, GROUPS, None),
                 ("T3(2,2,2)", allf, GROUPS, None),
                 ("T4c(2,2,2,2;<=4|>=15)", ("ts", "f"), GROUPS, 900)]
+    plan += list(PENDING_PLAN)
     only = getattr(ctx, "only", None)
     if only and "pending" in only:
         plan = list(PENDING_PLAN)
